@@ -280,7 +280,16 @@ class Run:
             name = api.service.name
             line = api.service.context.start.line
         ctx = api.task_context.uuid if api.task_context else None
+        # "with the same argument": two listeners invoked directly one after the other for the same notification must be
+        # handed the same OBJECT, not equal copies (what one writes on it the next one sees)
+        buf = self.cur if self.cur is not None else self.prelude
+        key = (_kind, name, line, api.uuid)
+        li = getattr(self, "_last_inv", None)
+        if li and li[0] == key and li[1] is buf and li[2] == len(buf) and li[4] != _j and li[3] != id(api):
+            self.ev(["IDENT", _kind, _j, name, line])
         self.ev(["INV", _kind, _j, name, line, api.uuid, ctx, [canon_param(p) for p in api.input_parameters]])
+        self._last_inv = (key, buf, len(buf), id(api), _j)
+        self._keep_alive = api   # the id stays unique while it is remembered
         if _j == 0 and _kind == "ss":
             k = len(self.announced)
             self.announced.append(api.uuid)
